@@ -185,6 +185,22 @@ func (e *Enc) eval(env *Env, x ast.Expr) TV {
 		return e.evalCall(env, n)
 	case *ast.IndexExpr:
 		b := e.eval(env, n.X)
+		if b.Ty != nil {
+			if mt, isMap := b.Ty.Underlying().(*types.Map); isMap {
+				// m[k] in a contract: the map's lookup function in this state
+				m, isOp := b.V.(Op)
+				if !isOp || !modelledElem(mt) {
+					e.evalFail(env, "index of an unmodelled map")
+				}
+				kv, _ := e.materialize(env, e.eval(env, n.Index), mt.Key())
+				var out TV
+				e.withState(env.st, func() {
+					v, _ := e.mapRead(env.st, mt, m.Id, kv)
+					out = TV{V: v, Ty: mt.Elem()}
+				})
+				return out
+			}
+		}
 		iv, it := e.materialize(env, e.eval(env, n.Index), types.Typ[types.Int])
 		idx := e.idx64(iv, it)
 		var out TV
@@ -787,6 +803,18 @@ func (e *Enc) evalCall(env *Env, n *ast.CallExpr) TV {
 			e.evalFail(env, "held(): mutex of unknown identity")
 		}
 		return TV{V: Sc{sel(e.getVar(env.st, key, lockSort), idx)}, Ty: boolT}
+	case "inMap":
+		// inMap(m, k): the ",ok" result of m[k] in this state
+		b := e.eval(env, n.Args[0])
+		mt, isMap := b.Ty.Underlying().(*types.Map)
+		m, isOp := b.V.(Op)
+		if !isMap || !isOp || !modelledElem(mt) {
+			e.evalFail(env, "inMap expects a modelled map")
+		}
+		kv, _ := e.materialize(env, e.eval(env, n.Args[1]), mt.Key())
+		var ok T
+		e.withState(env.st, func() { _, ok = e.mapRead(env.st, mt, m.Id, kv) })
+		return TV{V: Sc{ok}, Ty: boolT}
 	case "refOf":
 		// identity of the object a pointer refers to (as a number, for ghost variables)
 		a := e.eval(env, n.Args[0])
